@@ -8,9 +8,31 @@ from ..rules import tables
 _memo = {}
 
 
+# Which properties each rule of the shared quoter audit is a necessary condition of. The audit always runs whole (its rules
+# feed each other); a failing obligation of a rule is a violation only of the properties listed for it.
+AUDIT_CLAIMS = {
+    # every written byte is a guarded literal / validated escape / %XX, escapes decoded only under safe and not protected
+    "EM-PYQ": "C01 C02 C03 C04 C05 C12", "EM-CQ": "C01 C02 C03 C04 C05 C12",
+    "EM-PYQ-RETURN": "C01 C02 C03 C04 C05 C12", "EM-CQ-RETURN": "C01 C02 C03 C04 C05 C12",
+    # no input unit is skipped or consumed twice: the decoded value is preserved
+    "EM-PYQ-PROGRESS": "C02 C04 C05 C12", "EM-CQ-PROGRESS": "C02 C04 C05 C12",
+    "EM-PYQ-REWIND": "C01 C02 C04 C05", "EM-PYQ-WINDOW": "C01 C02 C04 C05", "EM-CQ-ADVANCE": "C01 C02 C04 C05",
+    # the bytes written for a code point are its UTF-8 encoding (surrogates: what the sibling does)
+    "EM-UTF8": "C02 C05 C12", "EM-UTF8-SURR": "C05",
+    # the `changed` flag: lower-case escapes are re-emitted upper-case, dropped units are noticed
+    "CH1": "C01 C05", "CH2": "C01 C05",
+    # the identity fast path is taken only for text made of literal-safe characters
+    "CH1-SKIP": "C01 C02 C05 C12",
+    # the hex digit encoder is upper-case; the decoder accepts exactly the hex digits
+    "T13": "C01 C03 C04 C05", "T14": "C01 C02 C04 C05 C06",
+    "LA": "C01 C03 C05 C06 C19",
+}
+
+
 def quoter_audits(ctx, backends=("py", "pyx"), ch2=True):
     """Run the emission audits (obligations go to ctx) and return {backend: {name: policy}}, configs."""
     model = ctx.model
+    ctx.outside = {r: "a condition of " + ps.replace(" ", ", ") for r, ps in AUDIT_CLAIMS.items() if ctx.prop not in ps.split()}
     cfgs = configurations(model)
     ctx.rule("T1", floor=13, what="quoter/unquoter configurations in use")
     ctx.instance("T1", len(cfgs))
